@@ -24,6 +24,7 @@ func init() {
 			ruleW2(c, t)
 			ruleW3W4W5(c, t)
 			ruleW6(c, t)
+			ruleW8(c, t)
 			ruleT1desc(c, t)
 		},
 		explanation: "Round-trip equality of encodings is a statement about values and is not decided.  Decided is that the tables both codecs are generated from agree, exhaustively: the FileDescriptorProto decoded from the rawDesc byte literal and the protobuf struct tags of the generated structs give the same (name, number, wire kind, repeated/map) for every field of every message; every UnmarshalVT has exactly the message's field numbers as cases, each checking the field's wire type and assigning only that field; every MarshalToSizedBufferVT block writes exactly one field with that field's tag bytes, in descending field-number order; every SizeVT block accounts for the same field with the same tag length and the same presence predicate as the marshal block; message-typed fields use nil-presence and scalars zero-suppression; ttRPC server registrations, client calls and the WASM host's exported-function calls cover exactly the descriptor's service methods, each routed to the same-named method with the descriptor's request type, the WASM binding using MarshalVT/UnmarshalVT; the Event enum of the descriptor equals the Go constants.",
@@ -1177,5 +1178,96 @@ func ruleT1desc(c *Ctx, t *wireTables) {
 		if _, ok := goC["Event_"+dn]; !ok {
 			c.violate("W7", "Event/"+dn, token.NoPos, "every descriptor event has a Go constant", "no Go constant Event_"+dn)
 		}
+	}
+}
+
+// ruleW8: the back-to-front encoder walks repeated fields from the last element to the first.
+func ruleW8(c *Ctx, t *wireTables) {
+	c.rule("W8", "repeated order: MarshalToSizedBufferVT fills its buffer from the end, so every loop over a repeated (slice) field runs from len-1 down to 0 — a forward or range loop writes the elements in reverse and both decoders return the list reversed (map fields, whose order does not matter, may be ranged)", 30)
+	for _, name := range t.sortedMsgs() {
+		gn := goMsgName(name)
+		mf := t.funcs[gn]["MarshalToSizedBufferVT"]
+		if mf == nil {
+			continue
+		}
+		recv := recvName(mf)
+		// field of the receiver indexed/ranged by a loop, if it is a slice
+		sliceField := func(e ast.Expr) string {
+			sel, ok := e.(*ast.SelectorExpr)
+			if !ok {
+				return ""
+			}
+			id, ok := sel.X.(*ast.Ident)
+			if !ok || id.Name != recv {
+				return ""
+			}
+			if tv, ok := t.info.Types[e]; ok {
+				if _, isSlice := tv.Type.Underlying().(*types.Slice); isSlice {
+					if b, isB := tv.Type.Underlying().(*types.Slice).Elem().Underlying().(*types.Basic); isB && b.Kind() == types.Uint8 {
+						return "" // bytes
+					}
+					return sel.Sel.Name
+				}
+			}
+			return ""
+		}
+		ast.Inspect(mf.Body, func(n ast.Node) bool {
+			switch x := n.(type) {
+			case *ast.RangeStmt:
+				if f := sliceField(x.X); f != "" {
+					c.violate("W8", name+"."+f, x.Pos(), "the encoder walks repeated field "+f+" backwards", "the field is ranged over front to back: the elements are written in reverse order")
+				}
+			case *ast.ForStmt:
+				// which receiver slice does the body index with the loop variable?
+				init, ok := x.Init.(*ast.AssignStmt)
+				if !ok || len(init.Lhs) != 1 {
+					return true
+				}
+				iv, ok := init.Lhs[0].(*ast.Ident)
+				if !ok {
+					return true
+				}
+				field := ""
+				ast.Inspect(x.Body, func(n2 ast.Node) bool {
+					if ix, ok := n2.(*ast.IndexExpr); ok {
+						if id, ok := ix.Index.(*ast.Ident); ok && id.Name == iv.Name {
+							if f := sliceField(ix.X); f != "" {
+								field = f
+							}
+						}
+					}
+					return true
+				})
+				if field == "" {
+					return true
+				}
+				// init: len(m.F) - 1; cond: iv >= 0; post: iv--
+				okInit, okCond, okPost := false, false, false
+				if be, ok := init.Rhs[0].(*ast.BinaryExpr); ok && be.Op == token.SUB {
+					if call, ok := be.X.(*ast.CallExpr); ok {
+						if fn, ok := call.Fun.(*ast.Ident); ok && fn.Name == "len" && len(call.Args) == 1 && sliceField(call.Args[0]) == field {
+							if bl, ok := be.Y.(*ast.BasicLit); ok && bl.Value == "1" {
+								okInit = true
+							}
+						}
+					}
+				}
+				if be, ok := x.Cond.(*ast.BinaryExpr); ok && be.Op == token.GEQ {
+					if id, ok := be.X.(*ast.Ident); ok && id.Name == iv.Name {
+						if bl, ok := be.Y.(*ast.BasicLit); ok && bl.Value == "0" {
+							okCond = true
+						}
+					}
+				}
+				if inc, ok := x.Post.(*ast.IncDecStmt); ok && inc.Tok == token.DEC {
+					if id, ok := inc.X.(*ast.Ident); ok && id.Name == iv.Name {
+						okPost = true
+					}
+				}
+				c.ok("W8", name+"."+field, x.Pos(), okInit && okCond && okPost, "the encoder walks repeated field "+field+" from the last element to the first",
+					"the loop over the repeated field does not run from len-1 down to 0: the back-to-front encoder then writes the elements in reverse (or skips some), so the decoded list differs from the original")
+			}
+			return true
+		})
 	}
 }
